@@ -110,6 +110,7 @@ type lockReq struct {
 }
 
 type lockMiss struct {
+	own  bool // the function takes this lock itself (in too weak a mode / too late): never a requirement
 	in   ssa.Instruction
 	base ssa.Value
 	lock string
@@ -243,7 +244,7 @@ func (e *locksetEngine) analyse(fn *ssa.Function, count bool) []lockMiss {
 					if mode == 2 {
 						w = "map write through "
 					}
-					misses = append(misses, lockMiss{i, base, lk, mode, w + owner + "." + name})
+					misses = append(misses, lockMiss{locked[lockKey{base, lk}], i, base, lk, mode, w + owner + "." + name})
 				}
 			case *ssa.Store:
 				owner, name, base, ok := ownerField(x.Addr)
@@ -259,7 +260,7 @@ func (e *locksetEngine) analyse(fn *ssa.Function, count bool) []lockMiss {
 					e.perField[owner+"."+name]++
 				}
 				if s[lockKey{base, lk}] < 2 {
-					misses = append(misses, lockMiss{i, base, lk, 2, "write of " + owner + "." + name})
+					misses = append(misses, lockMiss{locked[lockKey{base, lk}], i, base, lk, 2, "write of " + owner + "." + name})
 				}
 			case *ssa.Call:
 				cal := x.Call.StaticCallee()
@@ -272,7 +273,7 @@ func (e *locksetEngine) analyse(fn *ssa.Function, count bool) []lockMiss {
 					}
 					a := canon(x.Call.Args[r.paramIdx])
 					if s[lockKey{a, r.lock}] < r.mode {
-						misses = append(misses, lockMiss{i, a, r.lock, r.mode, "call of " + e.p.Name(cal) + " which needs " + r.lock + " [" + r.site + "]"})
+						misses = append(misses, lockMiss{locked[lockKey{a, r.lock}], i, a, r.lock, r.mode, "call of " + e.p.Name(cal) + " which needs " + r.lock + " [" + r.site + "]"})
 					}
 				}
 			}
@@ -284,7 +285,10 @@ func (e *locksetEngine) analyse(fn *ssa.Function, count bool) []lockMiss {
 func lsFresh(v ssa.Value) bool {
 	switch x := v.(type) {
 	case *ssa.Alloc:
-		return true
+		// an object allocated here (new(T), &T{…}); a cell holding a pointer (spilled parameter,
+		// captured variable) is not a fresh object
+		_, isPtrCell := x.Type().(*types.Pointer).Elem().Underlying().(*types.Pointer)
+		return !isPtrCell
 	case *ssa.Phi:
 		for _, e := range x.Edges {
 			if !lsFresh(e) {
@@ -328,6 +332,28 @@ func (p *Program) onlyStaticallyCalled(fn *ssa.Function) bool {
 	return p.refStatic[fn] > 0 && !p.refOther[fn]
 }
 
+// paramOfCell: the parameter a base value denotes — the parameter itself, or the local cell it was
+// spilled to because a closure captures it.
+func paramOfCell(v ssa.Value) *ssa.Parameter {
+	switch x := v.(type) {
+	case *ssa.Parameter:
+		return x
+	case *ssa.Alloc:
+		var pr *ssa.Parameter
+		n := 0
+		for _, r := range *x.Referrers() {
+			if st, ok := r.(*ssa.Store); ok && st.Addr == ssa.Value(x) {
+				n++
+				pr, _ = st.Val.(*ssa.Parameter)
+			}
+		}
+		if n == 1 {
+			return pr
+		}
+	}
+	return nil
+}
+
 func runLockset(c *Ctx, rule string, table []guardedField, floor int) {
 	p := c.P
 	c.Doc(rule, "must-lockset analysis: every access to a tabled field happens with the tabled lock of the same object held (write lock for writes and map updates); accesses in unexported, only-statically-called helpers become entry requirements checked at every call site, transitively; objects not yet published (allocated in the same function) are exempt")
@@ -356,7 +382,7 @@ func runLockset(c *Ctx, rule string, table []guardedField, floor int) {
 				if lsFresh(m.base) {
 					continue
 				}
-				if pr, ok := m.base.(*ssa.Parameter); ok && static[fn] {
+				if pr := paramOfCell(m.base); pr != nil && static[fn] && !m.own {
 					idx := -1
 					for i, q := range fn.Params {
 						if q == pr {
